@@ -205,11 +205,9 @@ def terms_for(c, o):
         nref = o.get('nref', o.get('nnames', 0)) if op != 'tbi' else o.get('nnames', 0)
         return [('idx', '%s %s %d %s' % (ctor, bl(x), cl, cz(nref or 0)))] + extra
     if op == 'fai':
-        if b'"' in x or b'\r' in x or x.count(b'\n') != 1 or not x.endswith(b'\n'):
+        if b'\r' in x or x.count(b'\n') != 1 or not x.endswith(b'\n') or len(x) < 2:
             return []
         fields = x[:-1].split(b'\t')
-        if len(fields) != 5 or not fields[0]:
-            return []
         vals = [go_atoi(f) for f in fields]
         return [('idx', 'IFai %s %s %d %s' % (clist(fields, bl), clist(vals, copt), cl, cb(post(o, 'Record.Position'))))]
     if op == 'bgzf':
